@@ -724,7 +724,11 @@ def campaign(build, tier, seed, report, budget=1):
         case = cases[i]
         # keep the operations up to the failing step only
         trunc = dict(case, ops=case["ops"][:step]) if step <= len(case["ops"]) else case
-        small = shrink(build, trunc, (clause, kind, optype), 6 if tier == "quick" else 14)
+        # a class recorded as an open known finding is not minimised beyond one round (time budget)
+        known_open = any(f.get("property") == "C12" and f.get("status", "open") == "open"
+                         and f.get("match", {}).get("clause") == CLAUSES.get(clause) and kind == 2
+                         for f in vlib.load_known_findings())
+        small = shrink(build, trunc, (clause, kind, optype), 1 if known_open else 6 if tier == "quick" else 14)
         r2 = impl_history_subprocess(small)
         v = {"property": "C12",
              "op": ("spec_vs_numpy" if kind == 7 else "final_observations" if optype == "final" else
